@@ -540,7 +540,7 @@ def same(obs, pred, with_obj=False):
     if with_obj:
         if obs["objsize"] != pred["size"]:
             return "allocated object size %d vs %d" % (obs["objsize"], pred["size"])
-        if obs["objalign"] != pred["align"] and not (pred["align"] < 8 and obs["objalign"] >= pred["align"]):
+        if obs["objalign"] != pred["align"]:
             return "allocated object alignment %d vs %d" % (obs["objalign"], pred["align"])
     return None
 
@@ -954,7 +954,76 @@ def finding(ck, fid, replay):
     seen[fid]["count"] += 1
 
 
-def classify(ck, t, ev, program):
+def variants(t):
+    """strictly smaller types (for shrinking a failing input)"""
+    if t[0] == "arr":
+        if t[2] not in (None, 1):
+            yield ("arr", t[1], 1)
+        for v in variants(t[1]):
+            yield ("arr", v, t[2])
+        return
+    if t[0] != "su":
+        return
+    fs = list(t[3])
+    if len(fs) > 1:
+        for i in range(len(fs)):
+            yield ("su", t[1], t[2], fs[:i] + fs[i + 1:])
+    if t[2]:
+        yield ("su", t[1], False, fs)
+    for i, (n, ft, al, w) in enumerate(fs):
+        if al:
+            yield ("su", t[1], t[2], fs[:i] + [(n, ft, 0, w)] + fs[i + 1:])
+        if w is None and ft[0] != "sc":
+            yield ("su", t[1], t[2], fs[:i] + [(n or "z%d" % i, ("sc", "char"), 0, None)] + fs[i + 1:])
+            for v in variants(ft):
+                yield ("su", t[1], t[2], fs[:i] + [(n, v, al, w)] + fs[i + 1:])
+        if w is not None and ft[1] not in ("int", "char"):
+            b = "char" if w <= 8 else ("int" if w <= 32 else "long")
+            if b != ft[1]:
+                yield ("su", t[1], t[2], fs[:i] + [(n, ("sc", b), al, w)] + fs[i + 1:])
+
+
+def unexplained(t, tg, res):
+    """does a single-type batch result contain a failure outside the known-deviation classes?"""
+    for ev in res.get("events", []):
+        if ev["kind"] in ("garbage", "rejected-valid"):
+            return ev
+        if ev["kind"] == "diff" and ev["vs_spec"] is not None:
+            known = ev["vs_model"] is None and ((tg == "aarch64" and has_unnamed_bf(t)) or has_unnamed_bf(t, nonzero_in_union=True))
+            if not known:
+                return ev
+    return None
+
+
+def shrink(ck, cproc, t, tg, budget=120):
+    """greedy delta debugging on the member tree; returns (smaller type, its event)"""
+    d = os.path.join(ck.scratch(), "shrink")
+
+    def probe(t2):
+        job = {"id": 0, "dir": d, "cproc": cproc, "drv": ck.drv_path(), "types": [(0, t2)], "targets": [tg],
+               "oracles": False, "fixed": uses_fixed(t2)}
+        try:
+            return unexplained(t2, tg, batch_worker(job))
+        except Exception:
+            return None
+    best = probe(t)
+    if best is None:
+        return t, None
+    progress = True
+    while progress and budget > 0:
+        progress = False
+        for v in variants(t):
+            budget -= 1
+            if budget <= 0:
+                break
+            ev = probe(v)
+            if ev is not None:
+                t, best, progress = v, ev, True
+                break
+    return t, best
+
+
+def classify(ck, t, ev, program, cproc=None):
     """ev: a 'diff' event (cproc's numbers differ from Spec and/or the model)."""
     tg = ev["target"]
     replay = {"kind": "layout", "target": tg, "program": program, "drv": drv_type(t),
@@ -982,6 +1051,14 @@ def classify(ck, t, ev, program):
             finding(ck, fid, dict(replay, what=what))
         return
     replay["what"] = "layout differs from the platform ABI: " + ev["vs_spec"]
+    if cproc and len(ck.violations) < 2:
+        t2, ev2 = shrink(ck, cproc, t, tg)
+        if ev2 is not None and ev2.get("kind") == "diff":
+            replay["original_program"] = program
+            replay["program"] = PRELUDE + (PRELUDE_FIXED if uses_fixed(t2) else "") + render(0, t2)[0]
+            replay.update({"drv": drv_type(t2), "cproc": ev2["cproc"], "spec": ev2["spec"], "model": ev2["model"],
+                           "differs_from_spec": ev2["vs_spec"], "differs_from_model": ev2["vs_model"]})
+            replay["what"] = "layout differs from the platform ABI: " + ev2["vs_spec"]
     ck.violation(replay)
 
 
@@ -1040,7 +1117,7 @@ def run_batches(ck, cproc, all_types, oracles, label, batch=150, targets=None):
                 ck.kb["ev:" + ev["kind"]] = ck.kb.get("ev:" + ev["kind"], 0) + 1
                 if ev["kind"] == "diff":
                     t = by[ev["tid"]]
-                    classify(ck, t, ev, PRELUDE + (PRELUDE_FIXED if job["fixed"] else "") + render(ev["tid"], t)[0])
+                    classify(ck, t, ev, PRELUDE + (PRELUDE_FIXED if job["fixed"] else "") + render(ev["tid"], t)[0], cproc)
                 elif ev["kind"] == "rejected-valid":
                     t = by[ev["tid"]]
                     ck.violation({"kind": "rejected-valid", "target": ev["target"], "stderr": ev["stderr"],
